@@ -76,6 +76,8 @@ let rec of_expr = function
   | EWhile (c, b) -> L [A "while"; of_expr c; of_expr b]
   | EDoWhile (b, c) -> L [A "dowhile"; of_expr b; of_expr c]
   | EFor (i, c, s, b) -> L [A "for"; of_expr i; of_expr c; of_expr s; of_expr b]
+  | EForInRange (x, a, b, body) -> L [A "forrange"; an x; of_expr a; of_expr b; of_expr body]
+  | EForInArr (x, a, body) -> L [A "forarr"; an x; of_expr a; of_expr body]
   | ELambda fd -> L [A "lambda"; of_fdef fd]
   | EArrLit (es, t) -> L [A "arrlit"; of_ty t; L (List.map of_expr es)]
   | EIndex (a, i) -> L [A "index"; of_expr a; of_expr i]
@@ -129,6 +131,8 @@ let rec to_expr = function
   | L [A "while"; c; b] -> EWhile (to_expr c, to_expr b)
   | L [A "dowhile"; b; c] -> EDoWhile (to_expr b, to_expr c)
   | L [A "for"; i; c; s; b] -> EFor (to_expr i, to_expr c, to_expr s, to_expr b)
+  | L [A "forrange"; x; a; b; body] -> EForInRange (to_n x, to_expr a, to_expr b, to_expr body)
+  | L [A "forarr"; x; a; body] -> EForInArr (to_n x, to_expr a, to_expr body)
   | L [A "lambda"; fd] -> ELambda (to_fdef fd)
   | L [A "arrlit"; t; L es] -> EArrLit (List.map to_expr es, to_ty t)
   | L [A "index"; a; i] -> EIndex (to_expr a, to_expr i)
